@@ -322,6 +322,8 @@ class Lexer():
         self._in_string = None
         # * the starting delimiter, either " or '
         self._in_string_delim = None
+        # * whether a "\z" escape is skipping the whitespace that follows it
+        self._in_string_skip_space = False
 
         # If inside a multiline comment (else None):
         # * the lines of comment, as an array of str (possibly empty)
@@ -364,6 +366,12 @@ class Lexer():
             while i < len(s):
                 c = s[i:i+1]
 
+                if self._in_string_skip_space:
+                    if c in (b' ', b'\t', b'\n', b'\r', b'\v', b'\f'):
+                        i += 1
+                        continue
+                    self._in_string_skip_space = False
+
                 if c == self._in_string_delim:
                     # End string literal.
                     self._tokens.append(
@@ -388,6 +396,10 @@ class Lexer():
                     elif hex_m:
                         c = bytes([int(hex_m.group(1), 16)])
                         i += 3
+                    elif s[i+1:i+2] == b'z':
+                        self._in_string_skip_space = True
+                        i += 2
+                        continue
                     else:
                         next_c = s[i+1:i+2]
                         if next_c in _STRING_ESCAPES:
